@@ -151,6 +151,20 @@ func cstreamBurstTrace(n int) baseTrace {
 	}}
 }
 
+// the kinds of caller context (newCtx); every one of them must give the Canceled / DeadlineExceeded status
+var ctxKindsCancel = []string{"cancel", "cause", "parent", "errgroup", "grandparent"}
+var ctxKindsDeadline = []string{"cancel", "timeout", "cause", "timeoutcause", "parent", "errgroup", "grandparent"}
+
+func ctxKindFor(withDeadline bool, n int) string {
+	if n < 0 {
+		n = -n
+	}
+	if withDeadline {
+		return ctxKindsDeadline[n%len(ctxKindsDeadline)]
+	}
+	return ctxKindsCancel[n%len(ctxKindsCancel)]
+}
+
 func c07BaseTraces() []baseTrace {
 	var ts []baseTrace
 	// bidirectional
@@ -198,6 +212,7 @@ func c07Scenario(bt baseTrace, p int, deadline bool, other int) cwScenario {
 		// an explicit cancel of a call that also carries a (distant) deadline: the handler's context is a timeout context
 		open.D = 600000
 	}
+	open.Ctx = ctxKindFor(open.D > 0, p+3*other+len(bt.Name)+len(bt.Kind))
 	steps = append(steps, open)
 	base := bt.Steps(c)
 	steps = append(steps, base[:p]...)
@@ -223,7 +238,7 @@ func c07Scenario(bt baseTrace, p int, deadline bool, other int) cwScenario {
 		how = "deadline"
 	}
 	return cwScenario{Mode: "e2e", Steps: steps, Cancel: p,
-		Tags: []string{"c07", "kind:" + bt.Kind, "trace:" + bt.Name, "how:" + how, fmt.Sprintf("other:%d", other), fmt.Sprintf("prefix:%d", p)}}
+		Tags: []string{"c07", "kind:" + bt.Kind, "trace:" + bt.Name, "how:" + how, fmt.Sprintf("other:%d", other), fmt.Sprintf("prefix:%d", p), "ctx:" + open.Ctx}}
 }
 
 // c07FaultScenario: as c07Scenario, but exactly the Write of the RST_STREAM fails (a per-message failure, the
@@ -344,6 +359,7 @@ func c11CallerAbandons(kind string, m, extra int, how string, others int, probeD
 	if how == "deadline" || how == "deadline-rstfail" {
 		open.D = 3000
 	}
+	open.Ctx = ctxKindFor(open.D > 0, m+2*others+len(how))
 	s = append(s, open, Step{Op: "c2s"}, Step{Op: "send", C: c, B: 10}, Step{Op: "c2s"}, hop(c, HOp{Op: "recv"}))
 	for j := 0; j < m+extra; j++ {
 		s = append(s, hop(c, HOp{Op: "send", B: int64(20 + j)}))
@@ -632,7 +648,11 @@ func c11Scenarios(full bool) []cwScenario {
 var clientLetters = []string{"send", "closesend", "recv", "cancel", "expire", "pbody", "ptrailer", "unary", "wfail", "sendbad"}
 
 func clientWord(w []int) (cwScenario, bool) {
-	s := []Step{{Op: "open", Kind: "Bidi", D: 4000}}
+	h := len(w)
+	for _, x := range w {
+		h = h*7 + x
+	}
+	s := []Step{{Op: "open", Kind: "Bidi", D: 4000, Ctx: ctxKindFor(true, h)}}
 	closed := false
 	nUnary := 0
 	name := ""
